@@ -247,6 +247,11 @@ func Collect(resp *protocol.Response, o *Outcome) {
 
 // Do performs hc.Do with panic capture and a watchdog.
 func Do(hc *http1.HostClient, req *protocol.Request, timeout time.Duration) *Outcome {
+	return DoWith(hc, req, timeout, nil)
+}
+
+// DoWith is Do with the Response prepared by the caller first (e.g. SkipBody).
+func DoWith(hc *http1.HostClient, req *protocol.Request, timeout time.Duration, prep func(*protocol.Response)) *Outcome {
 	done := make(chan *Outcome, 1)
 	go func() {
 		o := &Outcome{}
@@ -258,6 +263,9 @@ func Do(hc *http1.HostClient, req *protocol.Request, timeout time.Duration) *Out
 			done <- o
 		}()
 		resp := protocol.AcquireResponse()
+		if prep != nil {
+			prep(resp)
+		}
 		o.Err = hc.Do(context.Background(), req, resp)
 		if o.Err == nil {
 			Collect(resp, o)
@@ -292,6 +300,28 @@ type SeqConn struct {
 	Marks      []int // len(In) when response k started being served
 	closed     bool
 	CloseAfter bool
+	// DieAfter > 0: once that many responses have been delivered the peer has closed the
+	// idle connection (without having announced it): reads see EOF, what the client still
+	// writes goes nowhere (kept in Lost)
+	DieAfter int
+	Lost     []byte
+	// StallResp/StallAfter: while response StallResp is being delivered the peer goes
+	// silent once after StallAfter bytes of it (one read times out), then carries on
+	StallResp, StallAfter int
+	stallArmed            bool
+	delivered             int // bytes of the current response delivered so far
+}
+
+// timeoutErr is what a read deadline yields on a real connection.
+type timeoutErr struct{}
+
+func (timeoutErr) Error() string   { return "i/o timeout (scripted)" }
+func (timeoutErr) Timeout() bool   { return true }
+func (timeoutErr) Temporary() bool { return true }
+
+// SetStall arms the one-off silence.
+func (c *SeqConn) SetStall(resp, after int) {
+	c.StallResp, c.StallAfter, c.stallArmed = resp, after, true
 }
 
 func NewSeqConn(resps [][][]byte, closeAfter bool) *SeqConn {
@@ -309,6 +339,9 @@ func (c *SeqConn) Read(p []byte) (int, error) {
 	for {
 		if c.closed {
 			return 0, net.ErrClosed
+		}
+		if c.DieAfter > 0 && c.idx >= c.DieAfter {
+			return 0, io.EOF
 		}
 		if c.idx >= len(c.resps) {
 			if c.CloseAfter {
@@ -328,12 +361,23 @@ func (c *SeqConn) Read(p []byte) (int, error) {
 		if len(fr) == 0 {
 			c.idx++
 			c.armed = false
+			c.delivered = 0
 			continue
 		}
 		if len(c.Marks) <= c.idx {
 			c.Marks = append(c.Marks, len(c.In))
 		}
+		if c.stallArmed && c.idx == c.StallResp {
+			if c.delivered >= c.StallAfter {
+				c.stallArmed = false
+				return 0, timeoutErr{}
+			}
+			if rem := c.StallAfter - c.delivered; len(p) > rem {
+				p = p[:rem]
+			}
+		}
 		n := copy(p, fr[0])
+		c.delivered += n
 		if n == len(fr[0]) {
 			fr = fr[1:]
 		} else {
@@ -343,6 +387,7 @@ func (c *SeqConn) Read(p []byte) (int, error) {
 		if len(fr) == 0 {
 			c.idx++
 			c.armed = false
+			c.delivered = 0
 		}
 		return n, nil
 	}
@@ -353,6 +398,10 @@ func (c *SeqConn) Write(p []byte) (int, error) {
 	defer c.mu.Unlock()
 	if c.closed {
 		return 0, net.ErrClosed
+	}
+	if c.DieAfter > 0 && c.idx >= c.DieAfter {
+		c.Lost = append(c.Lost, p...)
+		return len(p), nil
 	}
 	c.In = append(c.In, p...)
 	c.armed = true
@@ -372,6 +421,13 @@ func (c *SeqConn) Written() []byte {
 	c.mu.Lock()
 	defer c.mu.Unlock()
 	return append([]byte(nil), c.In...)
+}
+
+// LostLen is the number of bytes written after the peer had closed the connection.
+func (c *SeqConn) LostLen() int {
+	c.mu.Lock()
+	defer c.mu.Unlock()
+	return len(c.Lost)
 }
 func (c *SeqConn) IsClosed() bool {
 	c.mu.Lock()
